@@ -1745,6 +1745,7 @@ func main() {
 		overlay = flag.String("overlay", "", "directory whose files are grafted onto the repository tree (export/<pkg path>/*.go, build tag verif)")
 		ctOut   = flag.String("ct", "", "constant-time mode: translate every target, write only a summary (json) to this file")
 		gowrap  = flag.String("gowrap", "", "output directory for generated Go wrappers (export/<pkg>/verif_t0_<group>.go) used by stream T0")
+		asm     = flag.Bool("asm", false, "also translate the amd64 field assembly (group FieldAsm)")
 		globals = flag.String("globals", "", "comma separated <pkg>:<tags>:<LeanGroup> triples: dump every package-level variable after interpreting the initialisers")
 	)
 	flag.Parse()
@@ -1877,6 +1878,11 @@ func main() {
 	for _, k := range keys {
 		results = append(results, resByKey[k]...)
 	}
+	if *ctOut == "" && *witness == "" && *asm {
+		for _, at := range asmTargets {
+			results = append(results, asmTranslate(*repo, at))
+		}
+	}
 	if *ctOut != "" {
 		type ctRes struct {
 			Name, Pkg, Fn, Tags, Expect, Err string
@@ -1969,6 +1975,9 @@ func main() {
 		os.RemoveAll(*gowrap)
 		for _, g := range gnames {
 			rs := groups[g]
+			if g == "FieldAsm" {
+				continue // hand-written wrappers (verif_t0_isasm.go): only the assembly build has these symbols
+			}
 			var sb strings.Builder
 			cons := "verif && !force32bit"
 			if strings.Contains(rs[0].T.Tags, "force32bit") {
